@@ -153,7 +153,8 @@ def r06_3(run, model):
                       "else; an integer literal match without default rows is a compile-time error; a string literal match without default "
                       "rows gets a failing default")
     f = model.fn("compile_rows", CM)
-    first = f.body["stmts"][0] if f.body["stmts"] else None
+    # the first statement that mentions `rows` at all (declarations that do not touch the rows may precede it)
+    first = next((st for st in f.body["stmts"] if "rows" in S.idents(st)), None)
     ok = False
     if first is not None and first["k"] == "ExprStmt" and first["expr"]["k"] == "If":
         c = S.norm_ws(run.facts.text(CM, first["expr"]["cond"]["sp"]))
